@@ -1,4 +1,5 @@
 import ModbusModel.Driver.Wire
+import ModbusModel.Model.History
 /-
   One model evaluation per case line.  `runLine` is total: a malformed line
   yields `bad-case` (never a default value).
@@ -109,35 +110,49 @@ def extendTransport (t : Transport) (fields : List String) : Option Transport :=
   pure { reads := t.reads ++ rs, writes := t.writes ++ ws, flushes := t.flushes ++ fs,
          shutdowns := t.shutdowns ++ ss }
 
-/-- run the ops of a client history -/
-def cliOps : List String → Client → Transport → List String → Option (List String)
-  | [], _, _, acc => some acc.reverse
-  | op :: rest, c, t, acc =>
-    match (op.splitOn " ").filter (· ≠ "") with
-    | "call" :: req :: fields => do
-      let req ← pRequest req
-      let t ← extendTransport t fields
-      let b ← pBudget (let v := field "b" fields; if v = "" then "-" else v)
-      let (o, c', t', effs) := c.call req t b
-      cliOps rest c' t' ((outcome callResult o ++ " " ++ effectsTok effs) :: acc)
-    | "typed" :: top :: fields => do
-      let top ← pTypedOp top
-      let t ← extendTransport t fields
-      let (o, c', t', effs) := c.call top.request t none
+/-- parse one op of a client history (typed ops are calls whose result is projected) -/
+def pCliOp (op : String) : Option (Op × Option TypedOp) :=
+  match (op.splitOn " ").filter (· ≠ "") with
+  | "call" :: req :: fields => do
+    let req ← pRequest req
+    let ext ← extendTransport {} fields
+    let b ← pBudget (let v := field "b" fields; if v = "" then "-" else v)
+    pure (.call req ext b, none)
+  | "typed" :: top :: fields => do
+    let top ← pTypedOp top
+    let ext ← extendTransport {} fields
+    pure (.call top.request ext none, some top)
+  | "slave" :: id :: _ => do
+    let id ← pU8 id
+    pure (.setSlave id, none)
+  | "disc" :: fields => do
+    let ext ← extendTransport {} fields
+    pure (.disconnect ext, none)
+  | _ => none
+
+def opResult (top : Option TypedOp) : OpResult → String
+  | .call o effs =>
+    match top with
+    | none => outcome callResult o ++ " " ++ effectsTok effs
+    | some top =>
       let o' : Outcome (Typed TypedVal) := match o with
         | .done r => .done (top.project r)
         | .abandoned => .abandoned
         | .blocked => .blocked
-      cliOps rest c' t' ((outcome typedResult o' ++ " " ++ effectsTok effs) :: acc)
-    | "slave" :: id :: _ => do
-      let id ← pU8 id
-      cliOps rest (c.setSlave id) t ("ok" :: acc)
-    | "disc" :: fields => do
-      let t ← extendTransport t fields
-      let (r, c', t', effs) := c.disconnect t
-      let rs := match r with | none => "ok" | some k => "err:" ++ errKind k
-      cliOps rest c' t' ((rs ++ " " ++ effectsTok effs) :: acc)
-    | _ => none
+      outcome typedResult o' ++ " " ++ effectsTok effs
+  | .slave => "ok"
+  | .disc r effs =>
+    (match r with | none => "ok" | some k => "err:" ++ errKind k) ++ " " ++ effectsTok effs
+
+/-- run the ops of a client history through `stepOp` -/
+def cliOps : List String → Client → Transport → List String → Option (List String)
+  | [], _, _, acc => some acc.reverse
+  | op :: rest, c, t, acc =>
+    match pCliOp op with
+    | none => none
+    | some (o, top) =>
+      let (r, c', t') := stepOp c t o
+      cliOps rest c' t' (opResult top r :: acc)
 
 def pSvc (s : String) : Option SvcOutcome :=
   if s = "D" then some .decline else
